@@ -59,6 +59,8 @@ var c07Sets = [][]c07Route{
 	// prefix, a duplicate, a second match-all): the accepted routes stay as they were
 	{{Method: "GET", Text: "/a/{x}"}, {Method: "GET", Text: "/a/{x}/{y}/{y}", Rejected: true}, {Method: "GET", Text: "/a/{x}/z"}, {Method: "GET", Text: "/a/{x}/z", Rejected: true}, {Method: "GET", Text: "/{m: **}"}},
 	{{Method: "GET", Text: "/a/b/z"}, {Method: "GET", Text: "/a/?b"}, {Method: "GET", Text: "/a", Rejected: true}, {Method: "GET", Text: "/a/{m: **}/{n: **}/z", Rejected: true}, {Method: "GET", Text: "/a/{m: **}/z"}},
+	// one route text registered separately for two methods, constraints on one of the two registrations only
+	{{Method: "GET", Text: "/a/{x}", Hdr: []string{"X-K", "^v$"}}, {Method: "POST", Text: "/a/{x}"}, {Method: "POST", Text: "/z/?z", Hdr: []string{"X-K", "^w$"}}, {Method: "GET", Text: "/z/?z"}, {Method: "HEAD", Text: "/a/{x}", Hdr: []string{"X-K", "^w$"}}},
 	// a route whose only segment is optional (its short form is the root) registered after dynamic one-segment routes
 	{{Method: "GET", Text: "/{x}"}, {Method: "GET", Text: "/?z"}},
 	{{Method: "GET", Text: "/{m: **}"}, {Method: "GET", Text: "/?z"}, {Method: "GET", Text: "/a/{y: /[az]+/}"}},
@@ -325,10 +327,10 @@ func c07Paths(thorough bool) []string {
 	}
 	out = append(out, "/A", "/A/b", "/a/B", "/A/", "/Z/a") // matching is case-sensitive
 	out = append(out, "/a/a-a/z", "/a/2-za/z", "/a/a-z", "/z/z", "/a/z/z")
-	out = append(out, `/a)(\Qb`, "/azb", "/ab", "/a)(b", `/az\Eb`, `/a\Qz\Eb`) // texts around the quoted expressions
+	out = append(out, `/a)(\Qb`, "/azb", "/ab", "/a)(b", `/az\Eb`, `/a\Qz\Eb`)                                                                                      // texts around the quoted expressions
 	out = append(out, "/aza", "/azza", "/azaza", "/azzza", "/a/a", "/a/aa", "/a/aaa", "/z/aaa", "/z/aaaa", "/z/aaaaa", "/z/aaa/z", "/a.a/z", "/a..a/z", "/a.z.a/z") // overlapping literals
-	out = append(out, "/a/b", "/a/b/z", "/z/a/b") // below a refused optional route
-	out = append(out, "/a/%2F/%/z%20", "/a/%/%2F/%41", "/a/%zz/a%2Fz/%2F", "/z/%2F-%-%41", "/z/%-%2F-%2F", "/a%2F/%/z/%/%61", "/%/%2F/z/%2561/%zz") // a malformed escape next to well-formed ones
+	out = append(out, "/a/b", "/a/b/z", "/z/a/b")                                                                                                                   // below a refused optional route
+	out = append(out, "/a/%2F/%/z%20", "/a/%/%2F/%41", "/a/%zz/a%2Fz/%2F", "/z/%2F-%-%41", "/z/%-%2F-%2F", "/a%2F/%/z/%/%61", "/%/%2F/z/%2561/%zz")                 // a malformed escape next to well-formed ones
 	out = append(out, "/"+strings.Repeat("a/", 32*1024), strings.Repeat("/", 70000), "/a/"+strings.Repeat("z", 65536))
 	return out
 }
@@ -343,6 +345,9 @@ func c07Run(r *core.Run) {
 	r.Bounds["paths"] = len(paths)
 	r.Bounds["route_sets"] = len(c07Sets)
 	r.Bounds["methods"] = c07Methods
+	if !r.Thorough() {
+		r.Bounds["quick_reduction"] = "all 6 method strings only with user NotFound and middleware both present; GET alone with neither; GET and the empty method with exactly one of them; thorough runs every combination"
+	}
 	r.Assumptions = []string{"the path is given as req.URL.Path (arbitrary bytes)", "first value of a repeated header is the one matched (http.Header.Get)"}
 	type job struct {
 		si         int
@@ -357,6 +362,9 @@ func c07Run(r *core.Run) {
 				for _, m := range c07Methods {
 					if !r.Thorough() && !mw && !nf && m != "GET" {
 						continue
+					}
+					if !r.Thorough() && mw != nf && m != "GET" && m != "" {
+						continue // quick: the mixed configurations with GET and the empty method only
 					}
 					jobs = append(jobs, job{si, nf, mw, m, 1})
 				}
